@@ -573,12 +573,20 @@ SKELETONS = [
         ("enqueue.full", r"enqueue\s*\(\s*&self\.full"), ("enqueue.empty", r"enqueue\s*\(\s*&self\.empty")]),
     ("src/low_level/channel.rs", "recv", None),
     ("src/iterator/backend.rs", "close", [
-        ("closed.store", r"\.closed\s*\.store\s*\("), ("wake", r"\.wake_readers\s*\(")]),
+        ("closed.store", r"\.closed\s*\.store\s*\("), ("wake", r"\.wake_readers\s*\("),
+        # unconditionally: a close() that decides whether anybody needs waking races with whoever is about to wait
+        ("conditional", r"\bif\b|\bmatch\b|\breturn\b|\?")]),
     ("src/iterator/backend.rs", "poll_pending", [
         ("is_closed", r"\.is_closed\s*\("), ("has_signals", r"\bhas_signals\s*\("),
         ("pending", r"\.pending\s*\("), ("flush", r"\.flush\s*\(")]),
-    ("src/iterator/backend.rs", "pending", None),
+    # `pending()`: drain, then a scanner over the whole slot table - nothing cached, nothing narrowed
+    ("src/iterator/backend.rs", "pending", [
+        ("flush", r"\.flush\s*\("), ("scanner.all", r"Pending::new\s*\(\s*Arc::clone\s*\(\s*&self\.pending\s*\)\s*\)"),
+        ("scanner.other", r"Pending::new\s*\((?!\s*Arc::clone\s*\(\s*&self\.pending\s*\)\s*,?\s*\))|Pending\s*\{"),
+        ("conditional", r"\bif\b|\bmatch\b|\breturn\b")]),
     ("src/iterator/backend.rs", "next", [
+        ("bound.slots", r"while\s+self\.position\s*<\s*self\.pending\.slots\.len\s*\(\s*\)\s*\{"),
+        ("bound.other", r"\bwhile\s+(?!self\.position\s*<\s*self\.pending\.slots\.len\s*\(\s*\)\s*\{)|\bfor\b|\bloop\b|\bbreak\b"),
         ("load", r"\.load\s*\("), ("return", r"\breturn\b"), ("else", r"\belse\b"),
         ("advance", r"position\s*\+=\s*1"), ("advance", r"position\s*=\s*[^=]")]),
     ("src/iterator/backend.rs", "poll_signal", [
@@ -607,6 +615,10 @@ SKELETONS = [
         ("send.nowait", r"WakeMethod::Send\s*=>\s*libc::send\s*\(\s*pipe\s*,\s*data\s*,\s*1\s*,\s*MSG_NOWAIT\s*\)"),
         ("other.call", r"libc::(?!write\s*\(\s*pipe\s*,\s*data\s*,\s*1\s*\)|send\s*\(\s*pipe\s*,\s*data\s*,\s*1\s*,\s*MSG_NOWAIT\s*\))\w+\s*\("),
         ("loop", r"\b(?:loop|while|for)\b")]),
+    # the owned write end is closed when its owner goes - whatever its number (0 is a descriptor like any other)
+    ("src/low_level/pipe.rs", "drop@libc::close", [
+        ("close.fd", r"libc::close\s*\(\s*self\.fd\s*\)"), ("other.close", r"libc::close\s*\((?!\s*self\.fd\s*\))"),
+        ("conditional", r"\bif\b|\bmatch\b|\breturn\b|\bwhile\b|\bfor\b|mem::forget")]),
     ("src/iterator/backend.rs", "add_signal@registered_signal_ids", [
         ("lock", r"\.registered_signal_ids\s*\.lock\s*\(\s*\)"),
         ("tolerant", r"unwrap_or_else\s*\(\s*std::sync::PoisonError::into_inner\s*\)"),
